@@ -240,6 +240,11 @@ func (b *OutboundBreaker) init(limit int64, interval time.Duration) (*OutboundBr
 	if limit < 1 {
 		return nil, fmt.Errorf("bad limit %d", limit)
 	}
+	if interval < time.Duration(breakerTicks) {
+		// A tick is the interval divided by the number of ticks,
+		// in whole nanoseconds, and we divide by it.
+		return nil, fmt.Errorf("bad interval %v", interval)
+	}
 	ticks := breakerTicks
 	// When the limit is adjusted, the calls already in the window
 	// still happened: keep the counts as long as they mean the
